@@ -473,6 +473,12 @@ func checkBatchOutcome(sc *Scenario, order []int, refs []*lineRef, out *BatchOut
 		victimID, victimLine = fmt.Sprintf("[%d]", out.Victim.pos), out.Victim.line
 		delete(wantFail, victimID)
 	}
+	excused := map[string]bool{}
+	for pos := range out.Excused {
+		id := fmt.Sprintf("[%d]", pos)
+		excused[id] = true
+		delete(wantFail, id)
+	}
 	gotFail := map[string]int{}
 	for _, l := range rep.ErrorLines {
 		id := l
@@ -492,6 +498,12 @@ func checkBatchOutcome(sc *Scenario, order []int, refs []*lineRef, out *BatchOut
 		}
 	}
 	for id, n := range gotFail {
+		if excused[id] {
+			if n > 1 {
+				add("error-summary", "failed-line-not-listed-once", fmt.Sprintf("line %s is listed %d times in the error summary", id, n), id)
+			}
+			continue
+		}
 		if id == victimID {
 			// a run whose disk failed may end with an error of its own, but only once and under its own id
 			if n > 1 {
@@ -509,6 +521,9 @@ func checkBatchOutcome(sc *Scenario, order []int, refs []*lineRef, out *BatchOut
 	// result streams equal the solo reference, byte for byte
 	for pos, li := range order {
 		if li == victimLine && out.Victim != nil && pos == out.Victim.pos {
+			continue
+		}
+		if _, ok := out.Excused[pos]; ok {
 			continue
 		}
 		got := outputsOf(out.Disk, outIDOf(sc, li))
@@ -777,6 +792,8 @@ func execBatch(sc *Scenario, env *Env) *Result {
 		allV = append(allV, execDiskFault(sc, env, refs, order, run, res)...)
 	case "realbin":
 		allV = append(allV, execRealBinary(sc, env, root, refs, order, res)...)
+	case "inputloss":
+		allV = append(allV, execInputLoss(sc, env, root, refs, order, run, res)...)
 	}
 	seen := map[string]bool{}
 	for _, v := range allV {
